@@ -1,12 +1,13 @@
 //go:build verif
 
-package sha3
+package sha3_test
 
-// C15 (sponge part): SHA3-224/256/384/512, SHAKE128/256, TurboSHAKE128/256
-// return the specified output for every input, chunking of the input, chunking
-// of the output, clone and reset. In-package because internal/sha3 cannot be
-// imported from outside the module and because the coverage counters read the
-// buffer cursors bufo/bufe.
+// C15 (sponge part): SHA3-224/256/384/512, SHAKE128/256, TurboSHAKE128/256 return the specified
+// output for every input, chunking of the input, chunking of the output, clone and reset.
+// External test package: only the exported API of internal/sha3 is named; the coverage classes
+// (buffer cursor classes) are derived from the model, not read from the object. The agreement of
+// those classes with the real cursors is recorded by the separate in-package unit
+// sponge_internals (zz_verif_c15_internals_test.go).
 
 import (
 	"bytes"
@@ -15,9 +16,6 @@ import (
 	"encoding/json"
 	"fmt"
 	"os"
-	"reflect"
-	"runtime"
-	"sync"
 	"testing"
 
 	"github.com/cloudflare/circl/internal/verifmc"
@@ -25,43 +23,6 @@ import (
 	"github.com/cloudflare/circl/internal/verifref/keccak"
 	xsha3 "golang.org/x/crypto/sha3"
 )
-
-// internal/sha3 has two sponge back-ends chosen at build time: xor_unaligned.go (amd64, 386,
-// ppc64le) and the portable xor_generic.go (every other GOARCH, or -tags appengine). Nothing in
-// the package depends on purego or on CPU features, so the sponge units run under the
-// configurations `default` and `appengine` only.
-func c15SkipNonDefault(t *testing.T) {
-	if c := os.Getenv("VERIF_CONFIG"); c != "" && c != "default" && c != "appengine" {
-		t.Skip("internal/sha3 depends only on the xor back-end; checked under the default and appengine configurations")
-	}
-}
-
-// c15XorBackend reads out which back-end was compiled: storageBuf is [168]byte in xor.go
-// (with xor_generic.go) and [21]uint64 in xor_unaligned.go.
-func c15XorBackend() string {
-	switch reflect.TypeOf(storageBuf{}).Elem().Kind() {
-	case reflect.Uint8:
-		return "xor_generic"
-	case reflect.Uint64:
-		return "xor_unaligned"
-	}
-	return "unknown"
-}
-
-// c15RecordBackend puts the back-end in the evidence and marks the run vacuous when the
-// configuration did not select the back-end it exists for.
-func c15RecordBackend(r *verifmc.Run) {
-	b := c15XorBackend()
-	r.Set("xor_backend", b)
-	r.Count("backend:"+b, 1)
-	want := map[string]string{"appengine": "xor_generic"}
-	if runtime.GOARCH == "amd64" || runtime.GOARCH == "386" || runtime.GOARCH == "ppc64le" {
-		want["default"] = "xor_unaligned"
-	}
-	if w, ok := want[r.Config()]; ok && w != b {
-		r.Vacuous(fmt.Sprintf("configuration %s was expected to compile %s but %s is in the binary", r.Config(), w, b))
-	}
-}
 
 // ---------------------------------------------------------------- refcheck
 
@@ -167,151 +128,6 @@ func TestVerifC15_refcheck_keccak(t *testing.T) {
 	r.Sample(map[string]interface{}{"published_vectors": n, "kat_vectors": nk, "xcrypto_comparisons": nx})
 }
 
-// ---------------------------------------------------------------- variants
-
-type c15Variant struct {
-	name   string
-	mk     func() State
-	rate   int
-	ds     byte
-	rounds int
-	sumLen int
-	dsAlt  []byte // SwitchDS alphabet
-}
-
-func c15Variants() []c15Variant {
-	return []c15Variant{
-		{"SHA3-224", New224, 144, 0x06, 24, 28, nil},
-		{"SHA3-256", New256, 136, 0x06, 24, 32, nil},
-		{"SHA3-384", New384, 104, 0x06, 24, 48, nil},
-		{"SHA3-512", New512, 72, 0x06, 24, 64, nil},
-		{"SHAKE128", NewShake128, 168, 0x1f, 24, 0, nil},
-		{"SHAKE256", NewShake256, 136, 0x1f, 24, 0, nil},
-		{"TurboSHAKE128[D=01]", func() State { return NewTurboShake128(0x01) }, 168, 0x01, 12, 0, nil},
-		{"TurboSHAKE128[D=07]", func() State { return NewTurboShake128(0x07) }, 168, 0x07, 12, 0, []byte{0x06, 0x7f}},
-		{"TurboSHAKE128[D=7f]", func() State { return NewTurboShake128(0x7f) }, 168, 0x7f, 12, 0, nil},
-		{"TurboSHAKE256[D=01]", func() State { return NewTurboShake256(0x01) }, 136, 0x01, 12, 0, nil},
-		{"TurboSHAKE256[D=1f]", func() State { return NewTurboShake256(0x1f) }, 136, 0x1f, 12, 0, []byte{0x0b}},
-		{"TurboSHAKE256[D=7f]", func() State { return NewTurboShake256(0x7f) }, 136, 0x7f, 12, 0, nil},
-	}
-}
-
-// c15Expect caches the reference output stream per (absorbed, ds).
-type c15Expect struct {
-	v      c15Variant
-	msg    []byte
-	maxOut int
-	mu     sync.Mutex
-	cache  map[[2]int]*c15Entry
-}
-
-type c15Entry struct {
-	once sync.Once
-	out  []byte
-}
-
-func (c *c15Expect) get(absorbed int, ds byte, n int) []byte {
-	k := [2]int{absorbed, int(ds)}
-	c.mu.Lock()
-	e := c.cache[k]
-	if e == nil {
-		e = &c15Entry{}
-		c.cache[k] = e
-	}
-	c.mu.Unlock()
-	e.once.Do(func() { e.out = keccak.Sponge(c.v.rate, ds, c.v.rounds, c.msg[:absorbed], c.maxOut) })
-	if len(e.out) < n {
-		panic("c15: reference output cache too short")
-	}
-	return e.out
-}
-
-// c15Obj adapts *State to the search engine.
-type c15Obj struct{ s *State }
-
-func (o *c15Obj) Write(p []byte) (int, error) { return o.s.Write(p) }
-func (o *c15Obj) Read(p []byte) (int, error)  { return o.s.Read(p) }
-func (o *c15Obj) Reset()                      { o.s.Reset() }
-func (o *c15Obj) CloneObj() c15hist.Obj       { return &c15Obj{o.s.Clone().(*State)} }
-func (o *c15Obj) SwitchDS(d byte)             { o.s.SwitchDS(d) }
-
-// SumObj calls Sum with a non-empty prefix that has spare capacity and checks
-// that the prefix is preserved; the digest part is returned.
-func (o *c15Obj) SumObj() []byte {
-	prefix := make([]byte, 3, 80)
-	copy(prefix, "abc")
-	out := o.s.Sum(prefix)
-	if len(out) < 3 || string(out[:3]) != "abc" {
-		panic("Sum did not preserve the prefix it appends to")
-	}
-	return out[3:]
-}
-
-func c15Observe(o c15hist.Obj, m c15hist.Model, op c15hist.Op) []string {
-	s := o.(*c15Obj).s
-	bufl := s.bufe - s.bufo
-	var n []string
-	switch op.Kind {
-	case c15hist.KWrite:
-		switch {
-		case op.Arg == 0:
-			n = append(n, "write:empty")
-		case bufl == 0 && op.Arg >= s.rate:
-			n = append(n, "write:fastpath")
-			if op.Arg%s.rate != 0 {
-				n = append(n, "write:fastpath-then-buffer")
-			}
-		case bufl+op.Arg == s.rate:
-			n = append(n, "write:fill-exact")
-		case bufl+op.Arg > s.rate:
-			n = append(n, "write:fill-and-continue")
-		default:
-			n = append(n, "write:buffer-only")
-		}
-	case c15hist.KRead:
-		if s.state == spongeAbsorbing {
-			n = append(n, "read:pad")
-			if s.bufe == s.rate-1 {
-				n = append(n, "read:pad-in-last-byte")
-			}
-			if s.bufe == 0 {
-				n = append(n, "read:pad-empty-buffer")
-			}
-		} else {
-			switch {
-			case op.Arg > bufl:
-				n = append(n, "read:cross-block")
-			case op.Arg == bufl:
-				n = append(n, "read:exact-drain")
-			}
-		}
-		if op.Arg == 0 {
-			n = append(n, "read:zero-length")
-		}
-	case c15hist.KClone:
-		if s.state == spongeSqueezing {
-			n = append(n, "clone:squeezing")
-		} else if bufl > 0 {
-			n = append(n, "clone:absorbing-buffered")
-		}
-	case c15hist.KReset:
-		if s.state == spongeSqueezing {
-			n = append(n, "reset:after-read")
-		} else if bufl > 0 {
-			n = append(n, "reset:buffered")
-		}
-	case c15hist.KSum:
-		if s.state == spongeSqueezing {
-			n = append(n, "sum:while-squeezing")
-		} else {
-			n = append(n, "sum:absorbing")
-		}
-	case c15hist.KSwitch:
-		n = append(n, "switchds")
-	}
-	return n
-}
-
 func c15System(r *verifmc.Run, v c15Variant, msg []byte) *c15hist.System {
 	rt := v.rate
 	sys := &c15hist.System{
@@ -325,7 +141,7 @@ func c15System(r *verifmc.Run, v c15Variant, msg []byte) *c15hist.System {
 		DS0:         v.ds,
 		AbsKey:      func(a int) string { return fmt.Sprintf("%d.%v", a%rt, a >= rt) },
 		ProbeLen:    rt + 9,
-		Observe:     c15Observe,
+		Observe:     func(_ c15hist.Obj, m c15hist.Model, op c15hist.Op) []string { return c15hist.SpongeClasses(rt, m, op) },
 		DepthMerged: r.Pick(6, 8),
 		DepthTree:   r.Pick(4, 5),
 	}
@@ -341,9 +157,10 @@ func c15System(r *verifmc.Run, v c15Variant, msg []byte) *c15hist.System {
 		sys.ProbeLen = v.sumLen
 		sys.ProbeSum = true
 	}
-	exp := &c15Expect{v: v, msg: msg, cache: map[[2]int]*c15Entry{}}
-	exp.maxOut = sys.MaxOutput()
-	sys.Expect = exp.get
+	exp := &c15hist.ExpectCache{MaxOut: sys.MaxOutput(), Fn: func(absorbed int, ds byte, n int) []byte {
+		return keccak.Sponge(v.rate, ds, v.rounds, msg[:absorbed], n)
+	}}
+	sys.Expect = exp.Get
 	return sys
 }
 
@@ -390,8 +207,8 @@ func TestVerifC15_sponge(t *testing.T) {
 		systems = append(systems, c15System(r, v, msg))
 	}
 	c15hist.SearchAll(r, systems, msg)
-	for _, c := range []string{"write:fastpath", "write:fastpath-then-buffer", "write:fill-exact", "write:fill-and-continue", "write:buffer-only",
-		"read:pad", "read:pad-in-last-byte", "read:pad-empty-buffer", "read:cross-block", "read:exact-drain",
+	for _, c := range []string{"write:whole-blocks-from-empty-buffer", "write:whole-blocks-then-tail", "write:fill-exact", "write:fill-and-continue", "write:buffer-only",
+		"read:pad", "read:pad-in-last-byte", "read:pad-empty-buffer", "read:cross-block", "read:exact-drain", "read:touches-last-lane",
 		"clone:squeezing", "clone:absorbing-buffered", "reset:after-read", "reset:buffered", "sum:absorbing", "switchds"} {
 		r.RequireCounter(c, 10)
 	}
